@@ -334,11 +334,40 @@ def gen_recursive(r, depth=None):
     hv = [V(VARS[i]) for i in range(sp['arity'])]
     preds.append({'name': 'Cnt', 'arity': 1, 'kind': 'agg', 'op': '+=', 'rules': [
         rule([C(0)], [[src, hv, None]], aggval=C(1))]})
+  # a second recursive component: stacked on the first or independent, usually left to the
+  # default depth (so that depth settings of one component cannot leak into another unseen)
+  second = None
+  if r.random() < 0.3:
+    second = r.choice(['stacked', 'independent', 'independent_first'])
+    n2 = r.choice([6, 9, 10, 12])
+    zrules = [rule([['e', 'n', '+', 1]], [['Z', [V('n')], None]], [['n', '<', C(n2)]])]
+    if second == 'stacked':
+      src = [p for p in preds if p['name'] == main][0]
+      hv = [V(VARS[i]) for i in range(src['arity'])]
+      zrules.insert(0, rule([hv[0]], [[main, hv, src['kind'] == 'agg' and 'a9' or None]], [[hv[0][1], '<', C(3)]]))
+      zrules.insert(0, rule([C(0)]))
+    else:
+      zrules.insert(0, rule([C(0)]))
+    zp = {'name': 'Z' if second != 'independent_first' else 'Aa', 'arity': 1, 'kind': 'distinct', 'rules': zrules}
+    if zp['name'] == 'Aa':
+      for ru in zp['rules']:
+        for a in ru['atoms']:
+          if a[0] == 'Z':
+            a[0] = 'Aa'
+      preds.insert(0, zp)
+    else:
+      preds.append(zp)
   recursive = {}
   if d != 8 or r.random() < 0.3:
     ann = r.choice(members) if family in ('cycle2', 'cycle3', 'random', 'helper') else main
     if family not in ('cycle2', 'cycle3', 'random', 'helper'):
       ann = [m for m in members if m in ('N', 'R', 'TC', 'D', 'W')][0]
     recursive[ann] = d
+    # two annotated members in one component: the smallest annotated name decides
+    others = [m for m in members if m != ann]
+    if family in ('cycle2', 'cycle3', 'random', 'helper') and others and r.random() < 0.35:
+      recursive[r.choice(others)] = max(1, min(d, r.choice([2, 3, 5, 8, d])))
+  if second and r.random() < 0.25:
+    recursive[[p['name'] for p in preds if p['name'] in ('Z', 'Aa')][0]] = r.choice([3, 5, 11, 12])
   program = {'preds': preds, 'ground': [], 'recursive': recursive, 'attach': None, 'noise': []}
   return program, family, main
